@@ -266,7 +266,16 @@ void runC46() {
     }
     vrt::watchdogDisarm();
     long growth = o8.maxStack - o1.maxStack;
-    if (growth > 64 * 1024) {
+    // 33 nested inline runs (the implementation's limit) cost about 16 KiB of stack in the plain build,
+    // 30 KiB under TSan and 70-100 KiB under ASan; unbounded nesting adds >= 7n frames (hundreds of KiB)
+#if VRT_ASAN
+    const long kGrowthLimit = 256 * 1024;
+#elif VRT_TSAN
+    const long kGrowthLimit = 128 * 1024;
+#else
+    const long kGrowthLimit = 64 * 1024;
+#endif
+    if (growth > kGrowthLimit) {
       vrt::violation("stack depth of inline execution grows with the amount of work", J().kv("stackAtN", o1.maxStack).kv("stackAt8N", o8.maxStack).kv("nestAtN", o1.maxNest).kv("nestAt8N", o8.maxNest).kv("n", s.n), "growth");
     }
     std::vector<std::string> cls;
